@@ -49,6 +49,7 @@ p = new(int64)
 ps = new(string)
 st = make(struct{A int64, B string, C []int64})
 si = make(struct{A interface, B interface})
+ty = make(type T1, 1)
 ch = make(chan int64, 2)
 uc = make(chan interface)
 fn = func(a, b) { return a }
@@ -59,7 +60,7 @@ module mod { x = 1; func g(a) { return a } }
 `
 
 // Names bound by Prelude (plus a few that are not bound at all).
-var names = []string{"i", "j", "f", "s", "b", "n", "l", "m", "tl", "ts", "tm", "im", "pl", "il", "ll", "p", "ps", "st", "si", "ch", "uc", "fn", "f0", "f5", "fv", "mod", "x", "y", "zz"}
+var names = []string{"i", "j", "f", "s", "b", "n", "l", "m", "tl", "ts", "tm", "im", "pl", "il", "ll", "p", "ps", "st", "si", "ty", "ch", "uc", "fn", "f0", "f5", "fv", "mod", "x", "y", "zz"}
 var funcNames = []string{"fn", "f0", "f5", "fv", "id", "keys", "typeOf", "toInt", "toString", "boom", "x"}
 var typeNames = []string{"int64", "string", "float64", "bool", "interface", "int", "byte", "rune", "uint64", "float32", "nosuchtype", "x"}
 var members = []string{"A", "B", "C", "x", "g", "a", "Len", "zz"}
